@@ -45,6 +45,11 @@ CLAIMED = {
     note=TB + "Partial: pickle, the CSV text encoding, zip member naming and the fixed /tmp extraction directory are exercised by the real cycles, not modelled.",
     technique="Lean 4 proof (list induction: filter of flatMap over distinct nodes) + model/implementation correspondence on real save/restore cycles",
     design="7/C19"),
+  "C20": dict(
+    text="Lean 4 theorems over a list-level model of what the tool writes: C20_counters_prefix (the counters file is the source events at their positions followed by the appended events) with checkAppendOnly_sound (the checker run on the implementation's output), C20_overlay_all_kept (with all events kept the source part is exactly one entry per source position, in order, marked iff the position is critical), C20_head_mem / C20_head_in_order (with only-critical the kept entries are a sub-sequence in source order), C20_only_critical_rule, C20_marked_iff_critical, C20_flows_two_per_edge (the j-th drawn edge yields at positions 2j, 2j+1 a start and an end flow event with id j on the pid/tid of the two joined events at the node times), C20_drawn_rule, C20_overlay_shape (flow events only after the source part), C20_update_rank_only_rank (the rank update sets the rank; every other metadata field and the field order are kept). Tied to generate_trace_with_counters, overlay_critical_path_analysis (all 8 combinations of only_show_critical_events, show_all_edges and CRITICAL_PATH_SHOW_ZERO_WEIGHT_LAUNCH_EDGE per case), read_trace / write_trace / update_trace_rank and create_rank_to_trace_dict on real files in .json and .json.gz, pretty and compact, by comparing the decoded output event by event and position by position with the model's output, plus a Python oracle (source file untouched, top-level fields unchanged, the tool can read its own output by name, rank discovery = metadata rank).",
+    note=TB + "Partial: JSON and gzip encoding are trusted (Python json/gzip); events are opaque ids interned by the harness; the content of counter events is C14's subject; rank discovery (a text scan) is checked by oracle only, on files whose metadata precedes the events.",
+    technique="Lean 4 proof (list induction over positions; sub-sequence and membership characterisations) + model/implementation correspondence on real files",
+    design="7/C20"),
   "C08": dict(
     text="Lean 4 model of the whole graph construction (window clipping, node creation, the DFS enter/exit state machine over the C03 token order with its closure variables, the kernel loop with launch-delay / kernel-kernel / Stream Sync / Context Sync edges, the weight helper, edge attribution, networkx's edge replacement) that reproduces the implementation's edge set exactly on every generated trace. Theorems: C08_nodes_two_per_event, C08_edge_weight_rule (every edge weighs the time difference of its endpoints or 0; dependency and sync edges 0), C08_callstack_edges_forward (for any time-sorted token list the DFS emits only forward edges; invariant over the closure state) with sortToks_time_sorted, C08_forward_of_descs, C08_weights_nonneg (forward + weight rule => no negative weight), C08_kernel_edge_types (launch edge: start of the linked runtime call -> start of its kernel; kernel-kernel: end of the last kernel of the stream; sync: end of a stream's last kernel -> end of the waiting host call), C08_checkTopo_sound (a graph passing the rank certificate has no cycle). Per run, the proved checkers (topological certificate, weights, forward, types) are evaluated in Lean on the implementation's own graph, alongside full model/implementation equality and a Python oracle.",
     note=TB + "Partial: stage 1 only (traces without cudaEventRecord / cudaStreamWaitEvent / Event Sync records, which the model does not yet cover); forwardness of kernel-loop edges and acyclicity are certified per run by proved checkers rather than proved for all inputs; the queue-length series (C14) and the links (C02) are inputs.",
